@@ -106,7 +106,7 @@ func runCell(base string, c Cell) *Result {
 	b, _ := json.Marshal(c)
 	cmd := exec.Command(os.Args[0], "-test.run", "^TestHostHelper$", "-test.timeout", "120s")
 	env := []string{"VHOST_CELL=" + string(b), "TMPDIR=" + hostTmp, "HOME=" + os.Getenv("HOME"), "PATH=" + os.Getenv("PATH"), "VERIF_HOST_MARKER=present"}
-	if !c.Host.AmbientInCmd {
+	if !c.Host.AmbientInCmd || c.Host.AmbientBoth {
 		for k, v := range c.Ambient {
 			env = append(env, k+"="+v)
 		}
